@@ -12,7 +12,8 @@ Three things are written, all obtained from the working tree named by VERIF_REPO
    Accepted subset (anything else raises Unsupported; the function is then absent and every lemma about it fails):
      * literals (int, bool, None as the padding code -1), names of locals, `cls.<CONST>` (emitted as K_<CONST>, value
        read by introspection of the imported class), `Padding.<X>` (K_Padding_<X>, introspected)
-     * + - * // %, unary -, comparisons (chained), and/or/not, conditional expressions, min/max/len/int/abs,
+     * + - * // %, `<<` / `>>` by a non-negative literal, unary -, comparisons (chained), and/or/not, conditional
+       expressions, min/max/len/int/abs,
        `x in (a, b, ..)`, `x in <list>`, tuple assignment, list subscript `l[i]` (negative i from the end; out of range
        is IndexError in Python and 0 here), `a, b = l[i : i + 2]`, `l[-n:]` (py_last), `[e] * n`, list `+`,
        `[l[k] for k in ks]`, `np.prod(l)`, `all(e for v in l)`, `len(bin(v)[2:])`, list equality,
@@ -335,6 +336,13 @@ class Fn:
             return "(py_repeat %s %s)" % (m.group(1), b), "listZ"
         if isinstance(e.op, ast.Add) and ta == "listZ" and tb == "listZ":
             return "(%s ++ %s)" % (a, b), "listZ"
+        if isinstance(e.op, (ast.LShift, ast.RShift)):
+            # shifts by a non-negative literal only (a negative count raises ValueError in Python)
+            if not (isinstance(e.right, ast.Constant) and isinstance(e.right.value, int) and not isinstance(e.right.value, bool)
+                    and e.right.value >= 0):
+                raise Unsupported("shift by a non-literal or negative count")
+            self.need(ta, "Z")
+            return "(Z.%s %s %s)" % ("shiftl" if isinstance(e.op, ast.LShift) else "shiftr", a, b), "Z"
         ops = {ast.Add: "+", ast.Sub: "-", ast.Mult: "*", ast.FloorDiv: "/", ast.Mod: "mod"}
         if type(e.op) not in ops:
             raise Unsupported("binary operator %s" % type(e.op).__name__)
